@@ -17,6 +17,19 @@ decl kinds ('k'):
 
 type: ['prim', name] | ['ptr', T] | ['arr', n, T] | ['td', name] | ['agg', kw, tag]
       | ['enum', tag] | ['fptr', ret, [args]]
+
+Opt-in features (not in DEFAULT_FEATURES; without them generation is unchanged):
+  'anon'      struct/union members of anonymous aggregate type: field type
+              ['anon', kw, fields]; field name '' = unnamed member (C11), else a
+              named member of anonymous type
+  'anon_td'   'typedef struct {...} T;' (struct decl with 'tag': None, 'tdname': T;
+              referenced as ['td', T]) and 'typedef enum {...} T;' (enum decl with
+              'tag': None, 'tdname': T)
+  'file'      'FILE' as a pointee (['prim', 'FILE']; the C source then needs <stdio.h>:
+              c_source(..., stdio=True))
+  'gvar_any'  global variables of typedef / aggregate / enum type ('init': None)
+  'variadic'  func decls with 'ellipsis': True   (int f(int, ...);)
+split_chain(spec, cuts) cuts one spec into an ffi.include() chain of specs.
 """
 from hypothesis import strategies as st
 
@@ -55,6 +68,7 @@ class _Scope(object):
         self.scalars = []       # td/enum types that are scalar (usable as func arg/ret)
         self.n = 0
         self.int_consts = []    # names of small positive integer constants (array lengths)
+        self.feats = frozenset()
 
     def fresh(self, prefix):
         self.n += 1
@@ -103,6 +117,8 @@ def _any_pointee(draw, sc, depth):
         return draw(st.sampled_from(sc.complete))
     if c == 3 and depth < 2:
         return ['ptr', _any_pointee(draw, sc, depth + 1)]
+    if c == 4 and 'file' in sc.feats:
+        return ['prim', 'FILE']
     return _prim(draw)
 
 
@@ -126,10 +142,31 @@ def _field_type(draw, sc, feats, depth=0):
     return _prim(draw)
 
 
+def _anon_member(draw, sc, feats, counter, depth):
+    """a member of anonymous struct/union type (feature 'anon')"""
+    kw = draw(st.sampled_from(['struct', 'union']))
+    fields = []
+    for _ in range(draw(st.integers(1, 3))):
+        counter[0] += 1
+        fname = 'n%d' % counter[0]
+        c = draw(st.integers(0, 7))
+        if c == 0 and depth < 2:
+            fields.append(_anon_member(draw, sc, feats, counter, depth + 1))
+        elif c == 1 and 'bitfield' in feats:
+            p = draw(st.sampled_from(BF_PRIMS))
+            fields.append([fname, ['prim', p], draw(st.integers(1, BF_BITS[p]))])
+        else:
+            fields.append([fname, _field_type(draw, sc, feats), None])
+    counter[0] += 1
+    name = '' if draw(st.integers(0, 2)) else 'n%d' % counter[0]
+    return [name, ['anon', kw, fields], None]
+
+
 @st.composite
 def specs(draw, features=DEFAULT_FEATURES, min_decls=2, max_decls=10):
     feats = set(features)
     sc = _Scope()
+    sc.feats = frozenset(feats)
     decls = []
     kinds = [k for k in ['typedef', 'struct', 'struct', 'union', 'opaque', 'enum', 'define',
                          'const', 'func', 'func', 'gvar', 'fptd'] if k in feats]
@@ -146,14 +183,23 @@ def specs(draw, features=DEFAULT_FEATURES, min_decls=2, max_decls=10):
         elif k in ('struct', 'union'):
             tag = sc.fresh('s' if k == 'struct' else 'u')
             fields = []
+            anon_counter = [0]
             for i in range(draw(st.integers(1, 6))):
                 fname = 'm%d' % i
-                if 'bitfield' in feats and draw(st.integers(0, 5)) == 0:
+                if 'anon' in feats and draw(st.integers(0, 4)) == 0:
+                    fields.append(_anon_member(draw, sc, feats, anon_counter, 0))
+                elif 'bitfield' in feats and draw(st.integers(0, 5)) == 0:
                     p = draw(st.sampled_from(BF_PRIMS))
                     fields.append([fname, ['prim', p], draw(st.integers(1, BF_BITS[p]))])
                 else:
                     fields.append([fname, _field_type(draw, sc, feats), None])
             tdname = sc.fresh('T') if draw(st.integers(0, 3)) == 0 else None
+            if 'anon_td' in feats and draw(st.integers(0, 3)) == 0:
+                # typedef struct { ... } T;
+                tdname = tdname or sc.fresh('T')
+                decls.append({'k': 'struct', 'kw': k, 'tag': None, 'fields': fields, 'tdname': tdname})
+                sc.complete.append(['td', tdname])
+                continue
             decls.append({'k': 'struct', 'kw': k, 'tag': tag, 'fields': fields, 'tdname': tdname})
             sc.complete.append(['agg', k, tag])
         elif k == 'opaque':
@@ -169,8 +215,17 @@ def specs(draw, features=DEFAULT_FEATURES, min_decls=2, max_decls=10):
                 if draw(st.booleans()):
                     v = draw(st.one_of(st.integers(-5, 300), st.sampled_from(
                         [-2**31, 2**31 - 1, 2**31, 2**32 - 1, -1, 0])))
+                if v is None and items and items[-1][1] in (2**31 - 1, 2**32 - 1):
+                    v = items[-1][1] + 1    # gcc: "overflow in enumeration values" for an implicit successor
                 items.append(['%s_%s%d' % (tag.upper(), 'V', i), v])
             # keep the value set representable in int or unsigned int or long (gcc rule)
+            if 'anon_td' in feats and draw(st.integers(0, 3)) == 0:
+                # typedef enum { ... } T;
+                tdname = sc.fresh('T')
+                decls.append({'k': 'enum', 'tag': None, 'items': items, 'tdname': tdname})
+                sc.complete.append(['td', tdname])
+                sc.scalars.append(['td', tdname])
+                continue
             decls.append({'k': 'enum', 'tag': tag, 'items': items})
             sc.complete.append(['enum', tag])
             sc.scalars.append(['enum', tag])
@@ -194,8 +249,14 @@ def specs(draw, features=DEFAULT_FEATURES, min_decls=2, max_decls=10):
             ret = ['prim', 'void'] if draw(st.integers(0, 5)) == 0 else _scalar(draw, sc)
             args = [_scalar(draw, sc) for _ in range(draw(st.integers(0, 5)))]
             decls.append({'k': 'func', 'name': name, 'ret': ret, 'args': args})
+            if 'variadic' in feats and args and draw(st.integers(0, 3)) == 0:
+                decls[-1]['ellipsis'] = True
         elif k == 'gvar':
             name = sc.fresh('g')
+            if 'gvar_any' in feats and sc.complete and draw(st.integers(0, 2)) == 0:
+                decls.append({'k': 'gvar', 'name': name, 'type': draw(st.sampled_from(sc.complete)),
+                              'init': None})
+                continue
             c = draw(st.integers(0, 4))
             if c <= 2:
                 p = draw(st.sampled_from([q for q in INT_PRIMS if q != '_Bool']))
@@ -242,7 +303,14 @@ def declarator(t, inner):
     if k == 'fptr':
         args = ', '.join(declarator(a, '') for a in t[2]) or 'void'
         return declarator(t[1], '(*%s)(%s)' % (inner, args))
+    if k == 'anon':
+        return ('%s { %s } %s' % (t[1], _fields_body(t[2]), inner)).rstrip()
     raise ValueError(t)
+
+
+def _fields_body(fields):
+    return ' '.join('%s%s;' % (declarator(ft, fn), (' : %d' % bits) if bits else '')
+                    for fn, ft, bits in fields)
 
 
 def decl_lines(spec, for_c=False):
@@ -257,14 +325,17 @@ def decl_lines(spec, for_c=False):
             body = ' '.join('%s%s;' % (declarator(ft, fn), (' : %d' % bits) if bits else '')
                             for fn, ft, bits in d['fields'])
             if d['tdname']:
-                out.append(('typedef %s %s { %s } %s;' % (d['kw'], d['tag'], body, d['tdname']), False))
+                out.append(('typedef %s %s { %s } %s;' % (d['kw'], d['tag'] or '', body, d['tdname']), False))
             else:
                 out.append(('%s %s { %s };' % (d['kw'], d['tag'], body), False))
         elif k == 'opaque':
             out.append(('%s %s;' % (d['kw'], d['tag']), False))
         elif k == 'enum':
             items = ', '.join(n if v is None else '%s = %s' % (n, _c_int(v)) for n, v in d['items'])
-            out.append(('enum %s { %s };' % (d['tag'], items), False))
+            if d.get('tdname'):
+                out.append(('typedef enum %s { %s } %s;' % (d['tag'] or '', items, d['tdname']), False))
+            else:
+                out.append(('enum %s { %s };' % (d['tag'], items), False))
         elif k == 'define':
             lit = d.get('lit') or str(d['value'])
             if for_c:
@@ -282,6 +353,8 @@ def decl_lines(spec, for_c=False):
                 out.append(('static const %s %s;' % (d['ctype'], d['name']), False))
         elif k == 'func':
             args = ', '.join(declarator(a, 'a%d' % i if for_c else '') for i, a in enumerate(d['args'])) or 'void'
+            if d.get('ellipsis'):
+                args += ', ...'
             proto = '%s(%s)' % (declarator(d['ret'], d['name']), args)
             if for_c:
                 out.append((proto + ' ' + _func_body(d), False))
@@ -334,6 +407,8 @@ def resolve(t, spec):
                 return ['fptr', d['ret'], d['args']]
             if d['k'] == 'struct' and d.get('tdname') == t[1]:
                 return ['agg', d['kw'], d['tag']]
+            if d['k'] == 'enum' and d.get('tdname') == t[1]:
+                return ['enum', d['tag']]
         else:
             raise KeyError(t)
     return t
@@ -374,17 +449,109 @@ def cdef_text(spec):
     return '\n'.join(t for t, _ in decl_lines(spec)) + '\n'
 
 
-def c_source(spec, abi=False):
+def c_source(spec, abi=False, stdio=False):
     """C source defining everything the cdef declares.  abi=True: constants
-    are exported objects (for dlopen) instead of 'static const'."""
+    are exported objects (for dlopen) instead of 'static const'.
+    stdio=True: also #include <stdio.h> (feature 'file')."""
     _SPEC_FOR_BODY[0] = spec
     try:
         lines = decl_lines(spec, for_c='abi' if abi else True)
     finally:
         _SPEC_FOR_BODY[0] = None
     return ('#include <stddef.h>\n#include <stdint.h>\n#include <sys/types.h>\n#include <wchar.h>\n'
+            + ('#include <stdio.h>\n' if stdio else '')
             + '\n'.join(t for t, _ in lines) + '\n')
 
 
 def kinds(spec):
     return sorted(set(d['k'] for d in spec['decls']))
+
+
+def split_chain(spec, cuts):
+    """Cut one spec into an ffi.include() chain: returns [base0, base1, ..., main],
+    each a spec whose decls only use names of itself and of earlier elements
+    (decls are generated in dependency order, so every split into consecutive
+    runs is valid).  `cuts`: increasing indices into spec['decls']."""
+    decls = spec['decls']
+    out, prev = [], 0
+    for c in list(cuts) + [len(decls)]:
+        c = max(prev, min(len(decls), c))
+        out.append({'decls': decls[prev:c]})
+        prev = c
+    return out
+
+
+def _rename_type(t, f):
+    k = t[0]
+    if k == 'prim':
+        return t
+    if k == 'td':
+        return ['td', f(t[1])]
+    if k == 'agg':
+        return ['agg', t[1], f(t[2])]
+    if k == 'enum':
+        return ['enum', f(t[1])]
+    if k == 'ptr':
+        return ['ptr', _rename_type(t[1], f)]
+    if k == 'arr':
+        return ['arr', f(t[1]) if isinstance(t[1], str) else t[1], _rename_type(t[2], f)]
+    if k == 'fptr':
+        return ['fptr', _rename_type(t[1], f), [_rename_type(a, f) for a in t[2]]]
+    if k == 'anon':
+        return ['anon', t[1], [[fn, _rename_type(ft, f), b] for fn, ft, b in t[2]]]
+    raise ValueError(t)
+
+
+def rename(spec, suffix):
+    """A copy of spec in which every file-scope name (typedefs, tags, enumerators,
+    constants, functions, globals; not field names) carries `suffix`, so that the
+    C sources of several specs can be linked into one shared object."""
+    f = lambda n: None if n is None else n + suffix
+    out = []
+    for d in spec['decls']:
+        d = dict(d)
+        k = d['k']
+        if k == 'typedef':
+            d['name'] = f(d['name']); d['type'] = _rename_type(d['type'], f)
+        elif k == 'struct':
+            d['tag'] = f(d['tag']); d['tdname'] = f(d['tdname'])
+            d['fields'] = [[fn, _rename_type(ft, f), b] for fn, ft, b in d['fields']]
+        elif k == 'opaque':
+            d['tag'] = f(d['tag'])
+        elif k == 'enum':
+            d['tag'] = f(d['tag'])
+            if 'tdname' in d:
+                d['tdname'] = f(d['tdname'])
+            d['items'] = [[f(n), v] for n, v in d['items']]
+        elif k in ('define', 'const'):
+            d['name'] = f(d['name'])
+        elif k in ('func', 'fptd'):
+            d['name'] = f(d['name']); d['ret'] = _rename_type(d['ret'], f)
+            d['args'] = [_rename_type(a, f) for a in d['args']]
+        elif k == 'gvar':
+            d['name'] = f(d['name']); d['type'] = _rename_type(d['type'], f)
+        else:
+            raise ValueError(k)
+        out.append(d)
+    return {'decls': out}
+
+
+def gcc_safe(spec):
+    """specs() can draw an enumerator without a value right after one whose value is
+    INT_MAX; gcc rejects that ('overflow in enumeration values').  Returns the spec with
+    such enumerators given their value explicitly (same meaning for cffi).  Use as
+    specs(...).map(gcc_safe) when the C source is compiled."""
+    out = []
+    for d in spec['decls']:
+        if d['k'] == 'enum':
+            items, nxt = [], 0
+            for n, v in d['items']:
+                if v is None and nxt == 2**31:
+                    v = nxt
+                if v is not None:
+                    nxt = v
+                items.append([n, v])
+                nxt += 1
+            d = dict(d, items=items)
+        out.append(d)
+    return {'decls': out}
